@@ -876,7 +876,47 @@ func lrStoreChain(in J, at func(int) (J, *ledger.ChainedLog), n int) {
 			e["bykey"] = J{"ok": lrDump(got)}
 		}
 	}
-	if len(s.t.refused) > 0 {
+	// GetLogs: the whole table in one page, newest first
+	nStored := 0
+	for k := 0; k < n; k++ {
+		if rowOf[k] >= 0 {
+			nStored++
+		}
+	}
+	excluded := false // a chain with an entry outside "logs the system writes" (a transaction id beyond uint64): Logs.ToCore panics on that row, and with it the page
+	if specs, ok := in["logs"].([]any); ok {
+		for _, sp := range specs {
+			if m, ok := sp.(map[string]any); ok && m["excluded"] != nil {
+				excluded = true
+			}
+		}
+	}
+	if nStored > 0 && excluded {
+		for k := 0; k < n; k++ {
+			if e, _ := at(k); rowOf[k] >= 0 {
+				e["listed"] = J{"skipped": "the chain holds an excluded entry"}
+			}
+		}
+	} else if nStored > 0 {
+		page, err := s.list(uint64(nStored + 5))
+		pos := 0
+		for k := n - 1; k >= 0; k-- {
+			if rowOf[k] < 0 {
+				continue
+			}
+			e, _ := at(k)
+			switch {
+			case err != nil:
+				e["listed"] = J{"error": err.Error()}
+			case len(page) != nStored:
+				e["listed"] = J{"error": fmt.Sprintf("GetLogs lists %d entries, %d are stored", len(page), nStored)}
+			default:
+				e["listed"] = J{"ok": lrDump(&page[pos])}
+			}
+			pos++
+		}
+	}
+	if len(s.t.refused) > 0 && n > 0 {
 		e, _ := at(n - 1)
 		e["table_refused"] = s.t.refused
 	}
